@@ -695,6 +695,7 @@ def run(ctx):
     if not ok and not r0.violations:
         r0.instances[:] = []
         r0.inst("evaluation not available", "fallback to structural rules R1/R2: %s" % str(why)[:160])
+        r0.viol("R0:undecided", "the evaluation cannot interpret the current code (%s): the clauses it decides are NOT decided on this tree; the structural rules reported alongside only cover part of them (fail closed)" % str(why)[:300])
         r0.floor = 1
     return [r0, r1, r2, rk, rd]
 
